@@ -130,6 +130,8 @@ def canon(s):
             return ["bool", True]
         if o == "<=" and b == ["n", 0]:
             return canon(["op", "==", ["n", 0], a])  # unsigned: x <= 0 is x == 0
+        if o == "<" and b == ["n", 1]:
+            return canon(["op", "==", ["n", 0], a])  # unsigned: x < 1 is x == 0
         if o in ("||", "&&") and (a[0] == "bool" or b[0] == "bool"):
             k_, other = (a, b) if a[0] == "bool" else (b, a)
             if o == "||":
@@ -759,13 +761,31 @@ class Builder:
                 return subst(r[1], V(st[0][1]), region)
             if len(st) == 1 and st[0][0] == "bytes" and region[0] == "v":
                 # taking n bytes of a region that was itself taken with count n is taking the whole region
-                bld, cnt = self, None
-                while bld is not None and cnt is None:
-                    for s_ in bld.steps:
-                        if s_[0] == "bytes" and s_[1] == region[1]:
-                            cnt = s_[2]
-                    bld = bld.parent
-                if cnt is not None and cnt == st[0][2]:
+                # (n possibly written as `region.len() as u16`)
+                def step_of(name):
+                    bld = self
+                    while bld is not None:
+                        for s_ in bld.steps:
+                            if len(s_) > 1 and s_[1] == name and s_[0] in ("bytes", "u"):
+                                return s_
+                        bld = bld.parent
+                    return None
+                def norm(x):
+                    if not isinstance(x, list):
+                        return x
+                    x = [norm(y) for y in x]
+                    if len(x) == 2 and x[0] == "len" and isinstance(x[1], list) and len(x[1]) == 2 and x[1][0] == "v":
+                        s_ = step_of(x[1][1])
+                        if s_ is not None and s_[0] == "bytes" and s_[2] != REMAINING:
+                            return norm(s_[2])
+                    if len(x) == 3 and x[0] == "cast" and isinstance(x[2], list) and len(x[2]) == 2 and x[2][0] == "v":
+                        s_ = step_of(x[2][1])
+                        if s_ is not None and s_[0] == "u" and s_[2] <= {"u8": 8, "u16": 16, "u32": 32, "u64": 64, "usize": 64}.get(x[1], 0):
+                            return x[2]
+                    return x
+                reg_step = step_of(region[1])
+                cnt = reg_step[2] if reg_step is not None and reg_step[0] == "bytes" else None
+                if cnt is not None and norm(cnt) == norm(st[0][2]):
                     return subst(r[1], V(st[0][1]), region)
             if len(st) == 1 and st[0][0] == "ite" and r[1] == V(st[0][1]):
                 _, ib, c, sa, sb = st[0]
@@ -836,6 +856,26 @@ class Builder:
                 return fill(gen_ret, [inner])
         return self._ite_built(c, sa, sb, ca, cb)
 
+    def _wrapped_cond(self, c, sa, sb, ca, cb):
+        """`if c { W(None) } else { W(Some(parse)) }` is W(cond(!c, parse)): the wrapper around the one place where the
+        arms differ is applied to the optional value.  -> value, or None when the arms are not of that form"""
+        if not (sa["ret"] and sb["ret"] and sa["ret"][0] == "ok" and sb["ret"][0] == "ok"):
+            return None
+        holes = []
+        gen_ret = antiunify(sa["ret"][1], sb["ret"][1], holes)
+        if len(holes) != 1:
+            return None
+        ha, hb = holes[0]
+        def is_some(x):
+            return x[0] == "ctor" and x[1] == "core::option::Option::Some" and len(x[2]) == 1
+        if ha == NONE and not sa["steps"] and is_some(hb):
+            inner = self._emit_cond(canon(["not", c]), {"steps": sb["steps"], "ret": ["ok", hb[2][0]]})
+        elif hb == NONE and not sb["steps"] and is_some(ha):
+            inner = self._emit_cond(c, {"steps": sa["steps"], "ret": ["ok", ha[2][0]]})
+        else:
+            return None
+        return subst(gen_ret, ["hole", 0], inner)
+
     def _ite_built(self, c, sa, sb, ca, cb):
         # a streaming take written by hand: `if i.len() < n { return Err(Incomplete(Needed::new(n - i.len()))) }` and then
         # the first n bytes are split off: this is take(n) (the Needed value must be the missing byte count)
@@ -854,17 +894,9 @@ class Builder:
             self.guard(canon(["not", c]), sb["ret"][1])
             return self._splice(sa, ca)
         # `if c { Some(parse) } else { None }` is nom's cond(c, parse)
-        def is_none(s):
-            return not s["steps"] and s["ret"] == ["ok", NONE]
-        def some_of(s):
-            r = s["ret"]
-            if r and r[0] == "ok" and r[1][0] == "ctor" and r[1][1] == "core::option::Option::Some" and len(r[1][2]) == 1:
-                return {"steps": s["steps"], "ret": ["ok", r[1][2][0]]}
-            return None
-        if is_none(sb) and some_of(sa) is not None:
-            return self._emit_cond(c, some_of(sa))
-        if is_none(sa) and some_of(sb) is not None:
-            return self._emit_cond(canon(["not", c]), some_of(sb))
+        wc = self._wrapped_cond(c, sa, sb, ca, cb)
+        if wc is not None:
+            return wc
         # `if x == k { A } else { B }` is `match x { k => A, _ => B }` (and the negated form)
         ec = eq_consts(c)
         if ec is not None:
@@ -1005,6 +1037,10 @@ class Builder:
             self.steps.append(d["steps"][0])
             self._adv()
             return ["nonempty", V(d["steps"][0][1])]
+        if len(built) == 1 and len(built[0][0]) == 1:
+            wc = self._wrapped_cond(eq(N(built[0][0][0]), scrut), built[0][1], d, built[0][2], dchild)
+            if wc is not None:
+                return wc
         live = [x for x in built if not rejects(x[1])]
         # `match x { c => body, _ => Err }` is a guard (reject unless x == c) followed by body;
         # `match x { c => Err, _ => body }` is a guard (reject if x == c) followed by body
@@ -1750,6 +1786,8 @@ class Ev:
         if rem[0] == "tok" and b.drops_remainder:
             # e.g. the catch-all arm of a dispatcher returning the outer remainder: the remainder of a region
             # parser is dropped by construction, so this cannot be observed
+            if isinstance(val, list) and val and val[0] == "ifv":
+                return b.ite(val[1], lambda nb: val[2], lambda nb: val[3])
             return val
         self.anomalies.append(("REMAINDER", "returned remainder is not the current input position: %s" % brief(rem), ""))
         b.steps.append(["opaque", b.counter.fresh(), "remainder " + brief(rem)])
@@ -2445,6 +2483,40 @@ class Ev:
             rest = dict(e)
             rest["arms"] = arms[1:]
             return b.ite(g, lambda nb: arm_eval(arms[0]["body"], env, nb), lambda nb: self.eval_match(rest, env, gen, nb, arm_eval))
+        def opt_pat(p_):
+            while p_["k"] in ("pref", "pderef"):
+                p_ = p_["pat"]
+            if p_["k"] == "ptuplestruct" and p_["res"].get("path") == "core::option::Option::Some" and len(p_["pats"]) == 1:
+                return "some", p_["pats"][0]
+            if p_["k"] == "pexpr" and p_["e"].get("path") == "core::option::Option::None":
+                return "none", None
+            return None
+        if any(opt_pat(a["pat"]) for a in arms):
+            # match opt { Some(x) => A, None => B }: the two arms of `if opt.is_none() { B } else { A[x := payload] }`
+            some_arm = none_arm = None
+            for a in arms:
+                if a.get("guard") is not None:
+                    raise Opaque("guard on an Option match arm")
+                op_ = opt_pat(a["pat"])
+                if op_ and op_[0] == "some" and some_arm is None:
+                    if op_[1]["k"] not in ("bind", "wild") or op_[1].get("sub"):
+                        raise Opaque("Option match with a nested pattern")
+                    some_arm = (a, op_[1])
+                elif (op_ and op_[0] == "none" or a["pat"]["k"] == "wild") and none_arm is None:
+                    none_arm = a
+                else:
+                    raise Opaque("Option match arms")
+            if some_arm is None or none_arm is None:
+                raise Opaque("Option match without both arms")
+            sp = self.option_split(scrut)
+            if sp is None:
+                raise Opaque("match on an Option the analysis cannot split: " + brief(scrut))
+            none_c, val = sp
+            if val is None:
+                return arm_eval(none_arm["body"], env, b)
+            env_s = dict(env)
+            self.bind_pat(some_arm[1], val, env_s)
+            return b.ite(none_c, lambda nb: arm_eval(none_arm["body"], env, nb), lambda nb: arm_eval(some_arm[0]["body"], env_s, nb))
         if scrut[0] == "ctor" and len(scrut[2]) == 1:
             scrut_val = scrut[2][0]
         else:
@@ -2559,7 +2631,8 @@ class Ev:
                     return None, []
                 out += c
             return out, []
-        if k == "ptuplestruct" and len(p["pats"]) == 1:
+        if k == "ptuplestruct" and len(p["pats"]) == 1 and p["res"].get("dk", "").startswith("Ctor(Struct"):
+            # a newtype pattern `TlsVersion(0x0304)`; enum variants (Some(x), Ok(v)) are not transparent
             return self.pat_consts(p["pats"][0])
         if k == "prange":
             lo, hi = p.get("lo"), p.get("hi")
